@@ -5,4 +5,4 @@ From DuneV Require Import C06_Model C06_Model_Params C06_Spec.
 Extraction Language OCaml.
 Extraction "c06_model.ml" c06_init c06_run c06_returned c06_log c06_case_fuel c06_spec_case c06_nonzero c06_enabled
   c06_link_ok_var c06_link_ok_fixed c06_some_positive c06_ctor_buf c06_case_ok_var c06_case_ok_fixed c06_observe
-  c06_vsc_ctor c06_vsc_copy c06_vsc_assign c06_channels_separate c06_pack c06_send_setup c06_run_k c06_counters_init.
+  c06_vsc_ctor c06_vsc_copy c06_vsc_assign c06_channels_separate c06_pack c06_send_setup c06_run_k c06_counters_init c06_vsc_move c06_vsc_swap.
